@@ -419,12 +419,14 @@ class IPVPNBase(Label):
         Index uses RD + prefix (without labels) for uniqueness.
         """
         addpath: Buffer
+        # one marker octet first: 'no-pi' or 'disabled' followed by the mask and prefix could spell the
+        # same bytes as a 4 octet path identifier followed by another mask and prefix
         if self.path_info is PathInfo.NOPATH:
-            addpath = b'no-pi'
+            addpath = b'\x00no-pi'
         elif self.path_info is PathInfo.DISABLED:
-            addpath = b'disabled'
+            addpath = b'\x01disabled'
         else:
-            addpath = self.path_info.pack_path()
+            addpath = b'\x02' + bytes(self.path_info.pack_path())
         # Index uses RD + prefix (without labels) for uniqueness
         rd_bits = RD_SIZE_BITS if self._has_rd else 0
         mask = bytes([rd_bits + self.cidr.mask])
